@@ -98,6 +98,14 @@ def run(prop, tier, seed):
                    busy_budget=2, init_pairs=rng.choice([[], [[2, F1]], [[2, 3], [7, F1]]]))
         prog = {c: [rng.choice(ops1) for _ in range(rng.randint(1, 3))] for c in range(1, rng.choice([2, 3]) + 1)}
         cj_rand.append((cfg, prog, seed * 1000 + i))
+    # a handle opened (reopen / unpickle / first access through a FanoutCache) while another client inserts and removes
+    for i in range(40 if tier == 'quick' else 800):
+        cfg = dict(policy='none', cull=10, limit=2 ** 30, stats=False, shared=0, kind='index', timeout=0,
+                   busy_budget=2, init_pairs=rng.choice([[], [[2, 3]], [[2, 3], [7, F1]]]))
+        prog = {1: [{'op': 'reopen', 'a': {}}, o('len'), rng.choice(ops1)],
+                2: [rng.choice([o('setitem', k=rng.choice([1, 2, 8]), v=rng.choice([4, F2])), o('delitem', k=2), o('popitem', last=1),
+                                o('setdefault', k=8, v=5)]) for _ in range(rng.randint(1, 3))]}
+        cj_rand.append((cfg, prog, seed * 1000 + 500000 + i))
     ctr = [t for lst in pmap(_conc_dfs, cj_dfs, procs=14) for t in lst] + [t for lst in pmap(_conc_rand, cj_rand, procs=14) for t in lst]
     alltr = traces + ctr
     for i, t in enumerate(alltr):
